@@ -488,7 +488,9 @@ class MCSRules(LockModel):
     def row_combos(self, r, ctx, assume=None, pre=None):
         ws = word_symbols(r.path)
         ws.add(r.pre_sym)
-        conds = [(c, o) for c, o, _ in r.path.conds]
+        conds = [(c, o) for c, o, _ in r.path.conds] + list(r.extra_conds)
+        if r.extra_conds:
+            ctx.kind_of_sym.setdefault(r.pre_sym, ctx.kind(r.e['obj']))
         rel = {r.pre_sym} | (free_word_symbols(r.post_expr) & ws)
         changed = True
         while changed:
@@ -748,10 +750,54 @@ class MCSRules(LockModel):
             src = ctx.ev_of_sym.get(s)
             good = src is not None and ctx.kind(src['obj']) == 'OWN'
             self.sink.emit(rule, 'ok' if good else 'violated', '%s successor found through the own node\'s link' % name, loc_of(e), '')
+        if k == 'NEXT':
+            self.tail_wait(fn, p, ctx, e, name)
         # SIX release / upgrade: predecessor readers drained first
         if src_mode == 'SIX' and what in ('REL', 'UPG'):
             self.drain_check(fn, p, ctx, e, name, what)
         return (1, 0) if k == 'LOCK' else (0, 1)
+
+    def tail_wait(self, fn, p, ctx, row, name):
+        """C02.TAILWAIT: a path that first found no successor link (own node's pointer field null) and then
+        hands over through the successor's node must have certified, on a value read from the lock word, that
+        the tail is no longer the own node; otherwise it can wait for a link that nobody will ever write."""
+        own_loads = [x for x in p.events if x['kind'] == 'atomic' and x['op'] == 'load' and ctx.kind(x['obj']) == 'OWN' and x['seq'] < row['seq']]
+        if not own_loads:
+            return
+        first = own_loads[0]['result']
+        was_tail = None
+        try:
+            for env, und in self.envs(p, ctx, [first]):
+                t = env[first].rest == ('c', 0)
+                was_tail = t if was_tail is None else (was_tail and t)
+        except OverflowError:
+            return
+        if not was_tail:
+            return       # a successor was already linked when the function started: nothing to certify
+        own_tok = self.own_tok(ctx)
+        lock_syms = [s for s, kk in ctx.kind_of_sym.items() if kk == 'LOCK'] + \
+            [s for s in sorted(p.word_syms) if s not in ctx.kind_of_sym]     # widened copies of the lock word
+        certified = False
+        for s in lock_syms:
+            n, okk = 0, True
+            try:
+                for env, und in self.envs(p, ctx, [s]):
+                    n += 1
+                    if env[s].rest == own_tok:
+                        okk = False
+                        break
+            except OverflowError:
+                okk = False
+            if n and okk:
+                certified = True
+                break
+        key = '%s waits for a successor link only after the lock word showed another tail' % name
+        if certified:
+            self.sink.ok('C02.TAILWAIT', key, loc_of(row), '')
+        else:
+            self.sink.bad('C02.TAILWAIT', key, loc_of(row),
+                          'the path reaches the successor hand-over although no value read from the lock word excludes that the own node is still '
+                          'the tail: with no successor the link wait never ends')
 
     def drain_check(self, fn, p, ctx, row, name, what):
         loads = [e for e in p.events if e['kind'] == 'atomic' and e['op'] == 'load' and ctx.kind(e['obj']) == 'OWN' and e['seq'] < row['seq']]
@@ -773,6 +819,8 @@ class MCSRules(LockModel):
             self.sink.ok('MCS.DRAIN', key, loc_of(cert), 'load at line %s with exit condition S=0' % cert['line'])
             if what == 'UPG':
                 self.acq_site('C08.ACQ', fn, p, cert, 'drain read: the exclusive section must synchronise with the shared sections that ended')
+            else:
+                self.acq_site('C08.ACQ', fn, p, cert, 'drain read of the SIX release: it carries the happens-before edge of the shared sections ahead of it on to the next exclusive section')
 
     # ------------------------------------------------------------------ conversions
     def role_upgrade(self, fn, mode, paths):
